@@ -98,7 +98,8 @@ def build():
 
 class Executor:
     def __init__(self, tag):
-        self.dir = os.path.join(WORK, tag)
+        # one scratch directory per process, so that concurrent runs of one check do not collide
+        self.dir = os.path.join(WORK, tag, "p%d" % os.getpid())
         os.makedirs(self.dir, exist_ok=True)
         self.n = 0
         self.crash_logs = []
@@ -203,6 +204,53 @@ class Executor:
         if job["id"] in timed:
             return {"id": job["id"], "timeout": True}
         return {"id": job["id"], "crash": {"rc": rc, "stderr": err}}
+
+
+def diagnose_abort(job, timeout_s=180):
+    """Re-run one job alone under gdb and name the call-stack cycle of a stack overflow / the
+    innermost repository frames of any other fatal signal: a stable identity for a crash that the
+    process itself cannot report. -> short string ('' when gdb gives nothing)"""
+    import re
+    import tempfile
+    d = tempfile.mkdtemp(prefix="abort", dir=WORK)
+    jf = os.path.join(d, "j.jsonl")
+    with open(jf, "w") as f:
+        f.write(json.dumps(job, ensure_ascii=False) + "\n")
+    try:
+        p = subprocess.run(["gdb", "-batch", "-ex", "run", "-ex", "bt 80", "--args", BIN, "exec", jf, jf + ".res", jf + ".jrn", "1", "150"],
+                           stdout=subprocess.PIPE, stderr=subprocess.STDOUT, timeout=timeout_s)
+        out = p.stdout.decode("utf-8", "replace")
+    except Exception:
+        out = ""
+    finally:
+        for fn in os.listdir(d):
+            try:
+                os.remove(os.path.join(d, fn))
+            except OSError:
+                pass
+        try:
+            os.rmdir(d)
+        except OSError:
+            pass
+    sig = ""
+    m = re.search(r"received signal (SIG\w+)", out)
+    if m:
+        sig = m.group(1)
+    counts, order = {}, []
+    for line in out.split("\n"):
+        m = re.match(r"#\d+\s+(?:0x[0-9a-f]+ in )?([A-Za-z_][\w:<>{}#, ]*?) \(.*\) at (src/[\w/]+\.rs):\d+", line)
+        if not m:
+            continue
+        name = "%s:%s" % (m.group(2).rsplit("/", 1)[-1], m.group(1).split("<")[0].strip())
+        if name not in counts:
+            order.append(name)
+        counts[name] = counts.get(name, 0) + 1
+    cyc = sorted(n for n in order if counts[n] >= 3)
+    if cyc:
+        return "%s recursion[%s]" % (sig or "overflow", ",".join(cyc))
+    if order:
+        return "%s at[%s]" % (sig or "fatal", ",".join(order[:3]))
+    return sig
 
 
 def load_known():
@@ -400,6 +448,10 @@ def panic_sig(p):
     f = loc.rsplit(":", 1)[0].replace("/repo/", "")
     msg = p.get("msg", "").split("\n")[0]
     msg = re.sub(r"\d+", "N", msg)[:100]
+    func = p.get("func") or ""
+    if func:
+        # call site = innermost function of the code under test on the panicking stack (robust to line shifts)
+        return "panic@%s:%s" % (func, msg)
     return "panic@%s:%s:%s" % (f, loc.rsplit(":", 1)[-1], msg)
 
 
